@@ -504,7 +504,10 @@ Fixpoint retry_loop (fuel : nat) (cfg : retry_cfg) (pos : nat) (inner : layer) (
             let '(r2, w2) :=
               if is_failure (r_fpol cfg) (pr_out r) then retry_on_failure cfg pos c (with_failure r) w1
               else let r' := with_done r true true in (r', ev_with_result w1 c KPolSuccess pos r') in
-            if pr_done r2 then (r2, w2, 1%nat)
+            if pr_done r2 then
+              (* a finished run that failed reports a cancellation that arrived while the failure was handled (since the fix:
+                 commit for finding F17; before it the failure was returned) *)
+              (match (if pr_succ r2 then None else is_canceled w2 c) with Some cr => cr | None => r2 end, w2, 1%nat)
             else
               (* RecordResult *)
               match is_canceled w2 c with
